@@ -39,6 +39,30 @@ Theorem callback_positions_any_newline syntax c children a e b :
 Proof. exact (callback_positions_any_newline_lemma syntax c children a e b). Qed.
 Print Assumptions callback_positions_any_newline.
 
+(* stream_positions: the same two statements for EVERY stream built from the OutputStream
+   operations (set level, push of an LF-free fragment, push_string, push_newline, push_indent,
+   push_field) in any order -- this is what covers the stylesheet formatter and any other client
+   of the stream: emmet/stylesheet/format.py calls only these operations (its raw pushes are fixed
+   fragments, numbers, colors and the stylesheet.between/after options; LF-free for the documented
+   defaults).  Its call sequence itself is not modelled; the check runs the position oracle on it. *)
+Theorem stream_positions f o a e b :
+  fmt_lf f -> reach f o -> chron o = a ++ e :: b ->
+  os_value o = text_of a ++ ev_text e ++ text_of b /\
+  ev_off e = length (text_of a) /\
+  ev_line e = line_of (text_of a) /\
+  ev_col e = column_of (text_of a).
+Proof. exact (positions_exact_lf f o a e b). Qed.
+Print Assumptions stream_positions.
+
+Theorem stream_positions_any_newline f o a e b :
+  reach f o -> chron o = a ++ e :: b ->
+  ev_off e = length (text_of a) /\
+  ev_line e = count_nl (rev a) /\
+  ev_col e = length (text_of a) - line_start f (rev a) /\
+  os_value o = text_of a ++ ev_text e ++ text_of b.
+Proof. exact (positions_exact f o a e b). Qed.
+Print Assumptions stream_positions_any_newline.
+
 (* Non-vacuity: the default option strings satisfy fmt_lf, and a run on <a title="${1:x\ny}"><b/></a>
    has callbacks after a field whose placeholder contains a line feed. *)
 Definition ex_cfg : oconfig :=
